@@ -243,7 +243,7 @@ def read_stats(runs):
     return per_test, distinct, samples, notes
 
 
-def write_evidence(cfg, tier, seed, runs, wall, violations, extra_notes=None, fuzz_info=None):
+def write_evidence(cfg, tier, seed, runs, wall, violations, extra_notes=None, fuzz_info=None, replay_mode=False):
     per_test, distinct, samples, notes = read_stats(runs)
     evals = sum(d["evaluations"] for d in per_test.values())
     faults = sum(d["faults"] for d in per_test.values())
@@ -269,7 +269,7 @@ def write_evidence(cfg, tier, seed, runs, wall, violations, extra_notes=None, fu
         "assumptions": cfg.get("assumptions", []), "wall_s": round(wall, 2), "violations": violations,
     }
     os.makedirs(os.path.join(VERIF, "evidence"), exist_ok=True)
-    if REPO == "/repo":
+    if REPO == "/repo" and not replay_mode:
         path = os.path.join(VERIF, "evidence", cfg["id"] + ".json")
     else:
         path = os.path.join(VERIF, "work", repo_tag(REPO), cfg["id"], "evidence.json")
@@ -447,7 +447,7 @@ def run_check(cid, tier, replay=None, build_only=False):
 
     wall = time.time() - t0
     nviol = 1 if status == "violation" else 0
-    ev = write_evidence(cfg, tier, seed, runs, wall, nviol, extra_notes, fuzz_info or None)
+    ev = write_evidence(cfg, tier, seed, runs, wall, nviol, extra_notes, fuzz_info or None, replay_mode=bool(replay))
     cov = ev["coverage"]
     print("check %s tier=%s seed=%d: %s  evaluations=%d distinct_nontrivial=%d processes=%d wall=%.1fs" % (
         cid, tier, seed, status, cov["evaluations"], cov["distinct_nontrivial"], len(runs), wall))
